@@ -276,6 +276,7 @@ def rich_base():
     y4 = mk_symbol(12, "abs", ("value", 0x400))
     y5 = mk_symbol(13, "undef", ("none",))
     y7 = mk_symbol(21, "main", ("ref", U(1)))  # twin of y1
+    y8 = mk_symbol(25, "selfdiff", ("none",))  # only used by the (S - S) expr
     k5 = mk_block("code", 22, offset=0, size=2, decode_mode=1)  # twin of k1
     b1["blocks"].append(k5)
     # several expressions that are equal except for their attributes, at
@@ -292,8 +293,11 @@ def rich_base():
         6: {"kind": "addr", "offset": -4, "scale": 2, "sym1": U(9),
             "sym2": U(10), "attrs": [3001, 4]},
         7: {"kind": "const", "offset": 4, "sym1": U(21), "attrs": [1]},
+        # (S - S): both operands one symbol that nothing else refers to
+        8: {"kind": "addr", "offset": 0, "scale": 1, "sym1": U(25),
+            "sym2": U(25), "attrs": []},
     }
-    m1 = mk_module(14, "mod", sections=[s1, s2], symbols=[y1, y2, y3, y4, y5, y7],
+    m1 = mk_module(14, "mod", sections=[s1, s2], symbols=[y1, y2, y3, y4, y5, y7, y8],
                    proxies=[p1], entry=U(1), binary_path="/bin/x", isa=3,
                    file_format=2, byte_order=2, preferred_addr=0x400000,
                    rebase_delta=-16,
